@@ -39,7 +39,7 @@ ASSUMPTIONS = ['integer oversampling factor; finite non-zero pixel scales, focal
                'fields are 2-d with positive dimensions (every Wavefront * Pupil product); pupil no larger than the FFT grid '
                'for the comparison with propagate_dft; square pixels for that comparison',
                'input samples (Gaussian integer) x (L-th root of unity), L <= 96; comparison tolerance 1e-9*(1+max|ref|)']
-RULE = ('every case is evaluated in a forked child that starts from the freshly imported library (no state leaks between cases; replays are self-contained); the same call repeated with one argument changed (oversample at a fixed wavelength, shape, scratch use); multi-field wavefronts (explicit Fields appended to Wavefront.data, segments) with tilt lists of different lengths incl. empty in every position (Plane.tilt shorter than the segments, per-field lists) - all must be refused, the untilted ones propagated; argument forms (scalar/tuple/list/array pixelscale, int/tuple/list/array shape, numpy-integer oversample) and amplitude dtypes (int, bool, float32, float64, complex); histories of 1..4 propagate_fft calls sharing one scratch buffer (none / exactly scratch_shape(all wavelengths) / larger / '
+RULE = ('image-plane wavefronts (lentil.Image; the reverse direction) in every family; second legs of relays (propagate_fft output fed back, directly or rebuilt through lentil.Image; oracle only); large grids (> 1000 rows, >= 2**20 samples; oracle only); amplitudes as np.ma.MaskedArray / np.matrix and scaled by 1e-13..1e6 (results compared relative to the scale); 0-d and one-element argument forms; wavelengths 1 ppm off a whole grid; every case is evaluated in a forked child that starts from the freshly imported library (no state leaks between cases; replays are self-contained); the same call repeated with one argument changed (oversample at a fixed wavelength, shape, scratch use); multi-field wavefronts (explicit Fields appended to Wavefront.data, segments) with tilt lists of different lengths incl. empty in every position (Plane.tilt shorter than the segments, per-field lists) - all must be refused, the untilted ones propagated; argument forms (scalar/tuple/list/array pixelscale, int/tuple/list/array shape, numpy-integer oversample) and amplitude dtypes (int, bool, float32, float64, complex); histories of 1..4 propagate_fft calls sharing one scratch buffer (none / exactly scratch_shape(all wavelengths) / larger / '
         'one short), initial scratch content random Gaussian integers; pupils 2..9 x 2..9 (Gaussian-integer amplitude with zero '
         'borders, optional OPD = k*lambda/Lp, optional two-segment mask), wavelength chosen so that the grid is 2..16 of either '
         'parity (1/alpha = N + delta, delta in {0, +-1/4, +-1/3, +-2/5, +-1/2}), oversample 1..3, shapes None / accepted / one too '
@@ -55,7 +55,8 @@ def lcm(a, b):
 
 # ------------------------------------------------------------------ generation
 DELTAS = [Fraction(0), Fraction(0), Fraction(1, 4), Fraction(-1, 4), Fraction(1, 3), Fraction(-1, 3),
-          Fraction(2, 5), Fraction(-2, 5), Fraction(1, 2), Fraction(-1, 2)]
+          Fraction(2, 5), Fraction(-2, 5), Fraction(1, 2), Fraction(-1, 2),
+          Fraction(1, 10 ** 6), Fraction(-1, 10 ** 6)]      # near-ties: a few ppm off a whole grid
 
 
 def rnd_amp(rng, n, m, cplx):
@@ -149,7 +150,17 @@ def gen_step(rng, geo, nmax, Nmax, force_tilt=None, aniso=False):
     if rng.random() < 0.2:
         st['os_form'] = 'npint'
     if not cplx and rng.random() < 0.35:
-        st['amp_dtype'] = rng.choice(['int', 'bool', 'float32'])
+        st['amp_dtype'] = rng.choice(['int', 'bool', 'float32', 'masked', 'matrix'])
+    elif rng.random() < 0.1:
+        st['amp_dtype'] = rng.choice(['masked', 'matrix'])      # ndarray subclasses are legal array_like inputs
+    if rng.random() < 0.25 and st['tilt'] != 'fit':
+        st['plane'] = 'image'                    # the reverse direction: an image-plane wavefront (lentil.Image)
+    if rng.random() < 0.2 and st.get('amp_dtype') in (None, 'float32', 'masked', 'matrix'):
+        st['amp_scale'] = rng.choice([-13, -9, -9, 6])     # every operation is linear: amplitudes over many decades
+    if 'du_form' not in st and rng.random() < 0.1:
+        st['du_form'] = rng.choice(['0d', 'one'])
+    if st['shape'] is not None and st['shape'][0] == st['shape'][1] and rng.random() < 0.15:
+        st['shape_form'] = '0d'
     return st
 
 
@@ -243,8 +254,12 @@ def gen_case(rng, tier):
 
 def generate(rng, tier):
     n_cases = 100 if tier == 'quick' else 2000
-    for _ in range(n_cases):
+    for k in range(n_cases):
         yield gen_case(rng, tier)
+        if k % 6 == 5:
+            yield gen_relay(rng, tier)
+    for k in range(2 if tier == 'quick' else 6):
+        yield gen_large(rng, k)
 
 
 # ------------------------------------------------------------------ implementation side
@@ -288,26 +303,38 @@ def build_wavefront(lentil, st, geo, lam, tilt=True):
         if not mask[0].any() or not mask[1].any():
             mask = None
     dt = st.get('amp_dtype')
+    scale = amp_scale(st)
+    if scale != 1.0:
+        amp = amp * scale
+    if dt == 'masked':
+        amp = np.ma.array(amp)
+    elif dt == 'matrix':
+        amp = np.matrix(amp)
     if dt == 'bool':
         amp = (amp != 0)
     elif dt == 'int' and not np.iscomplexobj(amp):
         amp = amp.astype(int)
     elif dt == 'float32' and not np.iscomplexobj(amp):
         amp = amp.astype(np.float32)
-    p = lentil.Pupil(amplitude=amp, opd=opd, mask=mask, pixelscale=dx, focal_length=z)
+    image = st.get('plane') == 'image'
+    if image:
+        p = lentil.Image(amplitude=amp, opd=opd, mask=mask, pixelscale=dx)
+    else:
+        p = lentil.Pupil(amplitude=amp, opd=opd, mask=mask, pixelscale=dx, focal_length=z)
     if kind == 'fit':
         p = p.fit_tilt()
     if tilt and st.get('ptilt'):
         # a tilt list on the plane itself: Plane.multiply hands tilt[n::size] to segment n
         p.tilt = [lentil.Tilt(x=1e-3 * (i + 1), y=-2e-3) for i in range(st['ptilt'])]
+    kw = {'focal_length': z} if image else {}
     if kind == 'wavefront':
-        w = lentil.Wavefront(lam, tilt=[1e-3, -2e-3])
+        w = lentil.Wavefront(lam, tilt=[1e-3, -2e-3], **kw)
     else:
-        w = lentil.Wavefront(lam)
+        w = lentil.Wavefront(lam, **kw)
     w = w * p
     # explicit Fields appended to the wavefront (another aperture's beam), each with its own tilt list
     for e in st.get('extra') or []:
-        data = np.array([[complex(v[0], v[1]) for v in row] for row in e['data']], dtype=complex)
+        data = np.array([[complex(v[0], v[1]) for v in row] for row in e['data']], dtype=complex) * scale
         nt = e.get('ntilt', 0) if tilt else 0
         w.data.append(lentil.field.Field(data=data, pixelscale=dx, offset=list(e['off']),
                                          tilt=[lentil.Tilt(x=2e-3, y=1e-3 * (i + 1)) for i in range(nt)]))
@@ -319,18 +346,28 @@ def build_wavefront(lentil, st, geo, lam, tilt=True):
     return w
 
 
+def amp_scale(st):
+    if st.get('amp_scale') and st.get('amp_dtype') in (None, 'float32', 'masked', 'matrix'):
+        return 10.0 ** st['amp_scale']
+    return 1.0
+
+
 def arg_forms(st, du, os_):
     """the documented argument forms: scalar / tuple / list / array pixel scale, int / tuple / list / array shape"""
     f = st.get('du_form', 'auto')
     if du[0] != du[1] and f in ('auto', 'scalar'):
         f = 'tuple'
+    if du[0] != du[1] and f in ('0d', 'one'):
+        f = 'tuple'
     du_arg = {'auto': du[0], 'scalar': du[0], 'tuple': (du[0], du[1]), 'list': [du[0], du[1]],
-              'array': np.array([du[0], du[1]])}[f]
+              'array': np.array([du[0], du[1]]), '0d': np.array(du[0]), 'one': [du[0]]}[f]
     shape = st['shape']
     if shape is not None:
         g = st.get('shape_form', 'tuple')
         if g == 'int' and shape[0] == shape[1]:
             shape = int(shape[0])
+        elif g == '0d' and shape[0] == shape[1]:
+            shape = np.array(int(shape[0]))
         elif g == 'list':
             shape = [int(shape[0]), int(shape[1])]
         elif g == 'array':
@@ -440,7 +477,8 @@ def _run_inner(c):
         r['tilted'] = any(bool(f.tilt) for f in w.data)
         r['tilts'] = [len(f.tilt) for f in w.data]
         r['wshape'] = [int(w.shape[0]), int(w.shape[1])]
-        r['fields'] = [{'data': np.array(f.data), 'off': [int(f.offset[0]), int(f.offset[1])], 'ntilt': len(f.tilt)}
+        sc_ = amp_scale(st)          # results are divided by the amplitude scale: all comparisons are relative to it
+        r['fields'] = [{'data': np.array(f.data) / sc_, 'off': [int(f.offset[0]), int(f.offset[1])], 'ntilt': len(f.tilt)}
                        for f in w.data]
         r['wl'] = float(w.wavelength)
         r['wpix'] = [float(w.pixelscale[0]), float(w.pixelscale[1])]
@@ -471,15 +509,15 @@ def _run_inner(c):
             r['wavelength'] = float(out.wavelength)
             r['pixelscale'] = [float(out.pixelscale[0]), float(out.pixelscale[1])]
             r['ptype'] = 2 if out.ptype == lentil.image else (1 if out.ptype == lentil.pupil else 0)
-            r['field'] = np.array(out.field)
+            r['field'] = np.array(out.field) / sc_
             # the same call without scratch and with a fresh buffer of exactly the advertised shape
             o2, e2 = call(lentil.propagate_fft, build_wavefront(lentil, st, geo, lam), du_arg, shape=shape, oversample=os_)
-            r['plain'] = e2 if e2 else np.array(o2.field)
+            r['plain'] = e2 if e2 else np.array(o2.field) / sc_
             if r['adv1'] is not None:
                 buf = garbage(12345, r['adv1'])
                 o3, e3 = call(lentil.propagate_fft, build_wavefront(lentil, st, geo, lam), du_arg, shape=shape,
                               oversample=os_, scratch=buf)
-                r['exact'] = e3 if e3 else np.array(o3.field)
+                r['exact'] = e3 if e3 else np.array(o3.field) / sc_
             # DFT propagation of the same complex field at the reported wavelength (square pixels only)
             if iso:
                 w2 = build_wavefront(lentil, st, geo, r['wavelength'])
@@ -488,7 +526,7 @@ def _run_inner(c):
                     d, e4 = call(lentil.propagate_dft, w2, du[0] / os_, shape=tuple(r['N']), oversample=1)
                 else:
                     d, e4 = call(lentil.propagate_dft, w2, du_arg, shape=shape, oversample=os_)
-                r['dft'] = e4 if e4 else np.array(d.field)
+                r['dft'] = e4 if e4 else np.array(d.field) / sc_
         info['steps'].append(r)
     return info
 
@@ -497,7 +535,7 @@ def brief(a):
     return a if isinstance(a, str) or a is None else np.asarray(a).tolist()
 
 
-def run_impl(c):
+def run_impl_hist(c):
     info = _run(c)
     out = {'iso': info['iso'], 'advertised': info.get('advertised'), 'scratch_shape': info.get('scratch_shape'), 'steps': []}
     for r in info['steps']:
@@ -522,6 +560,8 @@ def case_L(c, info):
 
 
 def encode(c):
+    if c.get('op') in ('relay', 'large'):
+        return None          # float samples / sizes beyond the exact model: decided by the oracle alone
     try:
         info = _run(c)
     except Exception:
@@ -642,7 +682,7 @@ def pupil_dims(st):
     return len(st['amp']), len(st['amp'][0])
 
 
-def oracle(c, impl):
+def oracle_hist(c, impl):
     geo = c['geo']
     os_ = geo['os']
     iso = impl['iso']
@@ -729,11 +769,13 @@ def oracle(c, impl):
         msg = arr_close(r['field'], r['dft'])
         if msg:
             return (f'call {k}: propagate_fft differs from propagate_dft at the reported wavelength {r["wavelength"]!r} '
-                    f'(pupil {n}x{m}, grid {N}, shape {shape}, oversample {os_}, scratch {r["used_scratch"]}): {msg}')
+                    f'({st.get("plane", "pupil")}-plane array {n}x{m}, grid {N}, shape {shape}, oversample {os_}, scratch {r["used_scratch"]}): {msg}')
     return None
 
 
 def nontrivial(c):
+    if c.get('op') in ('relay', 'large'):
+        return True
     try:
         info = _run(c)
     except Exception:
@@ -746,6 +788,10 @@ def nontrivial(c):
 
 
 def classify(c):
+    if c.get('op') == 'relay':
+        return 'relay/' + c['second']['via'] + '/' + c['second']['scratch']
+    if c.get('op') == 'large':
+        return 'large'
     sc = c['scratch']['kind'] if c.get('scratch') else 'noscratch'
     tags = set()
     try:
@@ -789,6 +835,218 @@ def extra(tier, rng):
                        'note': 'informational: the grid size is read from the implementation in every compared case'},
             'violations': []}
 
+
+
+# ------------------------------------------------------------------ second leg of a relay (oracle only: float samples)
+def gen_relay(rng, tier):
+    """pupil -> image by propagate_fft, then that image-plane wavefront back to a pupil: with and without scratch, against
+    propagate_dft of the same wavefront"""
+    os_ = rng.choice([1, 2, 2, 3])
+    geo = {'dx': rng.choice(['1', '1/2', '2']), 'du': [rng.choice(['1', '1/2', '1/4'])] * 2, 'z': rng.choice(['1', '2', '1/2']),
+           'os': os_}
+    if rng.random() < 0.3:
+        geo = {'dx': '1/100', 'du': ['1/100000', '1/100000'], 'z': '1', 'os': os_, 'units': 'SI'}
+    st = gen_step(rng, geo, 6, 10)
+    N = st['_N']
+    for k in ('_N', '_delta', 'ftilt', 'ptilt', 'plane', 'shape_form', 'du_form', 'os_form'):
+        st.pop(k, None)
+    st['tilt'] = 'none'
+    for e in st.get('extra') or []:
+        e['ntilt'] = 0
+    maxs = max(1, N // os_)
+    st['shape'] = None if rng.random() < 0.3 else [rng.randint(1, maxs), rng.randint(1, maxs)]
+    os2 = rng.choice([1, 1, 2])
+    s2 = None if rng.random() < 0.2 else [rng.randint(1, min(N, 8)), rng.randint(1, min(N, 8))]
+    return {'op': 'relay', 'geo': geo, 'first': st,
+            'second': {'os': os2, 'shape': s2, 'scratch': rng.choice(['exact', 'larger']), 'seed': rng.randint(0, 10 ** 6),
+                       'via': rng.choice(['direct', 'direct', 'image'])}}
+
+
+def _run_relay(c):
+    import copy
+    lentil = C.import_lentil()
+    geo, st, sec = c['geo'], c['first'], c['second']
+    dx, z = float(Fraction(geo['dx'])), float(Fraction(geo['z']))
+    du = float(Fraction(geo['du'][0]))
+    w = build_wavefront(lentil, st, geo, float(Fraction(st['lam'])))
+    shape1 = None if st['shape'] is None else tuple(st['shape'])
+    o, e = call(lentil.propagate_fft, w, du, shape=shape1, oversample=geo['os'])
+    if e:
+        return {'first_err': e}
+    r = {'first_shape': [int(o.shape[0]), int(o.shape[1])], 'first_data': [list(f.data.shape) for f in o.data],
+         'cropped': any(f.data.shape[0] > o.shape[0] or f.data.shape[1] > o.shape[1] for f in o.data)}
+    if sec['via'] == 'image':
+        win = lentil.Wavefront(o.wavelength, focal_length=o.focal_length) * lentil.Image(amplitude=np.array(o.field),
+                                                                                         pixelscale=float(o.pixelscale[0]))
+    else:
+        win = o
+    os2 = sec['os']
+    shape2 = None if sec['shape'] is None else tuple(sec['shape'])
+    N2, e = call(lentil.scratch_shape, win.wavelength, win.pixelscale, dx, win.focal_length, os2)
+    if e:
+        return dict(r, second_err='scratch_shape: ' + e)
+    N2 = [int(N2[0]), int(N2[1])]
+    r['N2'] = N2
+    r['in_pix'] = float(win.pixelscale[0])
+    a, ea = call(lentil.propagate_fft, copy.deepcopy(win), dx, shape=shape2, oversample=os2)
+    shp = N2 if sec['scratch'] == 'exact' else [N2[0] + 2, N2[1] + 1]
+    b, eb = call(lentil.propagate_fft, copy.deepcopy(win), dx, shape=shape2, oversample=os2, scratch=garbage(sec['seed'], shp))
+    # propagate_dft of the same complex image-plane field (for the direct route: everything the Field holds) at the
+    # wavelength the FFT result reports
+    rep = a if not ea else b
+    if rep is None:
+        d, ed = None, 'no FFT result to take the reported wavelength from'
+    else:
+        full = np.array(o.data[0].data) if sec['via'] == 'direct' and len(o.data) == 1 else np.array(o.field)
+        wd = lentil.Wavefront(float(rep.wavelength), focal_length=win.focal_length) * lentil.Image(
+            amplitude=full, pixelscale=float(win.pixelscale[0]))
+        if shape2 is None:
+            d, ed = call(lentil.propagate_dft, wd, dx / os2, shape=tuple(N2), oversample=1)
+        else:
+            d, ed = call(lentil.propagate_dft, wd, dx, shape=shape2, oversample=os2)
+    r['a'] = ea if ea else np.array(a.field)
+    r['b'] = eb if eb else np.array(b.field)
+    r['d'] = ed if ed else np.array(d.field)
+    if not ea:
+        r['a_ptype'] = 1 if a.ptype == lentil.pupil else 2
+        r['a_wl'] = float(a.wavelength)
+        r['in_wl'] = float(win.wavelength)
+    return r
+
+
+def oracle_relay(c, impl, skip_known=False):
+    if 'first_err' in impl:
+        return None                  # the first leg is the subject of the other cases
+    sec = c['second']
+    if 'second_err' in impl:
+        return f'second leg: {impl["second_err"]}'
+    what = f'(first leg {impl["first_shape"]} of grid {impl["first_data"]}, input via {sec["via"]}, shape {sec["shape"]}, oversample {sec["os"]})'
+    N2 = impl['N2']
+    size_in = impl['first_data'][0] if sec['via'] == 'direct' and len(impl['first_data']) == 1 else impl['first_shape']
+    if size_in[0] > N2[0] or size_in[1] > N2[1]:
+        return None                  # input array larger than the grid the implementation chose: outside the regime
+    if sec['shape'] is not None and (sec['shape'][0] * sec['os'] > N2[0] or sec['shape'][1] * sec['os'] > N2[1]):
+        for k in ('a', 'b'):
+            if impl[k] != 'ValueError':
+                return f'second leg of a relay {what}: a shape larger than the grid {N2} was not refused with ValueError'
+        return None
+    for k, name in (('a', 'propagate_fft without scratch'), ('b', 'propagate_fft with scratch'), ('d', 'propagate_dft')):
+        if isinstance(impl[k], str):
+            return f'second leg of a relay {what}: {name} raised {impl[k]}'
+    if impl.get('a_ptype') != 1:
+        return f'second leg of a relay {what}: an image-plane wavefront did not propagate to a pupil-plane one'
+    msg = arr_close(impl['b'], impl['d'])
+    if msg:
+        return f'second leg of a relay {what}: propagate_fft with a scratch buffer differs from propagate_dft: {msg}'
+    z, dx = float(Fraction(c['geo']['z'])), float(Fraction(c['geo']['dx']))
+    inv_alpha = impl['a_wl'] * z * sec['os'] / (impl['in_pix'] * dx)
+    if not rel_close(inv_alpha, impl['N2'][0], 1e-12):
+        return f'second leg of a relay {what}: reported wavelength {impl["a_wl"]!r} gives 1/alpha = {inv_alpha!r}, the grid is {impl["N2"]}'
+    msg = arr_close(impl['a'], impl['d'])
+    if msg:
+        if impl['cropped'] and sec['via'] == 'direct' and skip_known:
+            return None
+        return (f'second leg of a relay {what}: propagate_fft without scratch differs from propagate_dft and from '
+                f'propagate_fft with scratch: {msg}')
+    return None
+
+
+# ------------------------------------------------------------------ large grids (oracle only)
+def gen_large(rng, k):
+    n, m = [(1001, 37), (40, 1025), (700, 700), (1003, 5), (33, 1100), (512, 1024)][k % 6]
+    N = max(n, m) + rng.choice([6, 30, 31])
+    return {'op': 'large', 'n': n, 'm': m, 'N': N, 'delta': rng.choice(['0', '3/10', '-1/4']), 'os': rng.choice([1, 2]),
+            'shape': [rng.randint(2, 9), rng.randint(2, 9)], 'seed': rng.randint(0, 10 ** 6), 'cplx': rng.random() < 0.5}
+
+
+def _run_large(c):
+    lentil = C.import_lentil()
+    g = np.random.default_rng(c['seed'])
+    amp = g.integers(-3, 4, size=(c['n'], c['m'])).astype(float)
+    if c['cplx']:
+        amp = amp + 1j * g.integers(-3, 4, size=(c['n'], c['m']))
+    amp[0, 0] = amp[-1, -1] = amp[0, -1] = amp[-1, 0] = 1
+    os_ = c['os']
+    lam = float((c['N'] * os_ + Fraction(c['delta'])) / os_)        # dx = du = z = 1: 1/alpha = lam * os
+    mk = lambda wl: lentil.Wavefront(wl) * lentil.Pupil(amplitude=amp, pixelscale=1.0, focal_length=1.0)
+    shape = tuple(c['shape'])
+    r = {}
+    a, ea = call(lentil.propagate_fft, mk(lam), 1.0, shape=shape, oversample=os_)
+    if ea:
+        return {'err': ea}
+    Ns, _ = call(lentil.scratch_shape, lam, 1.0, 1.0, 1.0, os_)
+    r['N'] = [int(Ns[0]), int(Ns[1])]
+    buf = np.full(tuple(r['N']), 3 - 2j)
+    b, eb = call(lentil.propagate_fft, mk(lam), 1.0, shape=shape, oversample=os_, scratch=buf)
+    d, ed = call(lentil.propagate_dft, mk(float(a.wavelength)), 1.0, shape=shape, oversample=os_)
+    r['wl'] = float(a.wavelength)
+    r['a'] = np.array(a.field)
+    r['b'] = eb if eb else np.array(b.field)
+    r['d'] = ed if ed else np.array(d.field)
+    return r
+
+
+def oracle_large(c, impl):
+    what = f'pupil {c["n"]}x{c["m"]}, 1/alpha = {c["N"] * c["os"]} + {c["delta"]}, oversample {c["os"]}, shape {c["shape"]}'
+    if 'err' in impl:
+        return f'large grid ({what}): propagate_fft raised {impl["err"]}'
+    for k, name in (('b', 'propagate_fft with scratch'), ('d', 'propagate_dft')):
+        if isinstance(impl[k], str):
+            return f'large grid ({what}): {name} raised {impl[k]}'
+    inv_alpha = impl['wl'] * c['os']
+    if not rel_close(inv_alpha, impl['N'][0], 1e-12):
+        return f'large grid ({what}): reported wavelength {impl["wl"]!r} gives 1/alpha = {inv_alpha!r}, the grid is {impl["N"]}'
+    msg = arr_close(impl['a'], impl['d'])
+    if msg:
+        return f'large grid ({what}, grid {impl["N"]}): propagate_fft differs from propagate_dft at the reported wavelength: {msg}'
+    msg = arr_close(impl['b'], impl['a'], 1e-12)
+    if msg:
+        return f'large grid ({what}, grid {impl["N"]}): a dirty scratch buffer of exactly scratch_shape changes the result: {msg}'
+    return None
+
+
+# ------------------------------------------------------------------ dispatch over the case kinds
+def _run_other(c):
+    k = _key(c)
+    if k not in _CACHE:
+        C.import_lentil()
+        _CACHE[k] = _forked(_run_relay if c['op'] == 'relay' else _run_large, c)
+    return _CACHE[k]
+
+
+def run_impl(c):
+    if c.get('op') in ('relay', 'large'):
+        return _run_other(c)
+    return run_impl_hist(c)
+
+
+def oracle(c, impl):
+    if c.get('op') == 'relay':
+        return oracle_relay(c, impl)
+    if c.get('op') == 'large':
+        return oracle_large(c, impl)
+    return oracle_hist(c, impl)
+
+
+KNOWN_RELAY = 'C09-relay-field-exceeds-shape'
+
+
+def known_match(f, c, impl):
+    if f['id'] == KNOWN_RELAY:
+        return (c.get('op') == 'relay' and c['second']['via'] == 'direct' and bool(impl.get('cropped'))
+                and oracle_relay(c, impl, skip_known=True) is None)
+    return False
+
+
+def replay_known(f):
+    if f['id'] == KNOWN_RELAY:
+        c = {'op': 'relay', 'geo': {'dx': '1', 'du': ['1', '1'], 'z': '1', 'os': 2},
+             'first': {'amp': [[[i * 4 + j + 1, 0] for j in range(4)] for i in range(4)], 'lam': '8', 'Lp': 1, 'opdk': None,
+                       'seg': None, 'tilt': 'none', 'shape': [3, 3], 'use_scratch': False},
+             'second': {'os': 1, 'shape': [4, 4], 'scratch': 'exact', 'seed': 1, 'via': 'direct'}}
+        impl = _forked(_run_relay, c)
+        return oracle_relay(c, impl) is not None and oracle_relay(c, impl, skip_known=True) is None
+    return False
 
 
 # ------------------------------------------------------------------ WP-T2: translation layer (source -> Gallina)
